@@ -4,10 +4,13 @@
    directives of our own. *)
 Require Extraction.
 Require Import ExtrOcamlBasic.
-From SF Require Import Base.Prelude Core.Events Cbor.Spec Cbor.Enc Cbor.Parse Gotype.Lru.
+From SF Require Import Base.Prelude Core.Events Cbor.Spec Cbor.Enc Cbor.Parse Ubjson.Spec Ubjson.Enc Ubjson.Parse Base.Utf8 Json.Enc Json.Parse Gotype.Lru.
+Definition nonfinite_b (w bits : Z) : Z := if nonfinite w bits then 1 else 0.
 Extraction Language OCaml.
 Extraction "sfmodel.ml"
   lru_init lru_run spec_run
   stream_tree parse_tree wf_tree value_of cv cvalue_eqb contract_ok expand adapter sink0 s_log btype_code
   cbor_decode cbor_decode_all cbor_run cenc0 w_chunks
-  run_parse run_chunks dec_next cparser0.
+  run_parse run_chunks dec_next cparser0
+  json_run jenc0 jrun_parse jrun_chunks jdec_next jparser0 sanitize utf8_valid nonfinite_b
+  ubj_decode ubj_run uenc0 urun_parse urun_chunks udec_next uparser0 scalar_value.
